@@ -15,6 +15,8 @@
 #include <etl/_numeric/abs.hpp>
 #include <etl/_string_view/basic_string_view.hpp>
 #include <etl/_type_traits/conditional.hpp>
+#include <etl/_utility/ignore_unused.hpp>
+#include <etl/_type_traits/make_unsigned.hpp>
 
 namespace etl::strings {
 
@@ -173,6 +175,104 @@ template <integral Int, to_integer_options Options = to_integer_options{}>
 
     auto const end = etl::next(str.data(), static_cast<etl::ptrdiff_t>(pos));
     return {.end = end, .error = to_integer_error::none, .value = value};
+}
+
+
+template <integral Int>
+struct to_integer_c_result {
+    Int value{};
+    etl::size_t consumed{0};
+    bool overflow{false};
+};
+
+/// \brief Parses an integer with the grammar of the C library functions strtol/strtoul
+/// (ISO C 7.22.1.4): optional leading whitespace, an optional '+' or '-' sign, for base 16
+/// (and base 0) an optional 0x/0X prefix, base 0 selects octal/decimal/hexadecimal from the
+/// prefix. On overflow the result is clamped to the limits of Int and all digits are consumed.
+/// If no conversion can be performed, value and consumed are both zero.
+template <integral Int>
+[[nodiscard]] constexpr auto to_integer_c(string_view str, int base) noexcept -> to_integer_c_result<Int>
+{
+    using UInt = etl::make_unsigned_t<Int>;
+
+    auto const digitOf = [](char ch) -> int {
+        if (ch >= '0' and ch <= '9') {
+            return ch - '0';
+        }
+        if (ch >= 'a' and ch <= 'z') {
+            return ch - 'a' + 10;
+        }
+        if (ch >= 'A' and ch <= 'Z') {
+            return ch - 'A' + 10;
+        }
+        return 255;
+    };
+
+    auto const length = str.size();
+    auto pos          = size_t{0};
+    while (pos != length and etl::isspace(static_cast<int>(static_cast<unsigned char>(str[pos]))) != 0) {
+        ++pos;
+    }
+
+    auto negative = false;
+    if (pos != length and (str[pos] == '+' or str[pos] == '-')) {
+        negative = str[pos] == '-';
+        ++pos;
+    }
+
+    if (base == 0 or base == 16) {
+        auto const hasPrefix = pos + 2 < length and str[pos] == '0' and (str[pos + 1] == 'x' or str[pos + 1] == 'X')
+                           and digitOf(str[pos + 2]) < 16;
+        if (hasPrefix) {
+            pos += 2;
+            base = 16;
+        } else if (base == 0) {
+            base = (pos != length and str[pos] == '0') ? 8 : 10;
+        }
+    }
+    if (base < 2 or base > 36) {
+        return {};
+    }
+
+    auto const limit = [negative]() -> UInt {
+        if constexpr (signed_integral<Int>) {
+            auto const max = static_cast<UInt>(numeric_limits<Int>::max());
+            return negative ? static_cast<UInt>(max + UInt(1)) : max;
+        } else {
+            etl::ignore_unused(negative);
+            return numeric_limits<UInt>::max();
+        }
+    }();
+
+    auto value    = UInt{0};
+    auto overflow = false;
+    auto digits   = size_t{0};
+    for (; pos != length; ++pos, ++digits) {
+        auto const digit = digitOf(str[pos]);
+        if (digit >= base) {
+            break;
+        }
+        if (overflow) {
+            continue;
+        }
+        if (value > static_cast<UInt>((limit - static_cast<UInt>(digit)) / static_cast<UInt>(base))) {
+            overflow = true;
+            continue;
+        }
+        value = static_cast<UInt>(value * static_cast<UInt>(base) + static_cast<UInt>(digit));
+    }
+
+    if (digits == 0) {
+        return {};
+    }
+    if (overflow) {
+        if constexpr (signed_integral<Int>) {
+            return {negative ? numeric_limits<Int>::min() : numeric_limits<Int>::max(), pos, true};
+        } else {
+            return {numeric_limits<Int>::max(), pos, true};
+        }
+    }
+    return {static_cast<Int>(negative ? static_cast<UInt>(UInt(0) - value) : value), pos, false};
 }
 
 } // namespace etl::strings
